@@ -31,6 +31,10 @@ pub struct Case {
     /// (copy element `from`, insert at position `at`) applied to the inputs
     pub dup_inputs: Vec<(u16, u16)>,
     pub dup_collateral: Vec<(u16, u16)>,
+    /// post-Byron only: (copy input `from`, give the copy this output index) — inputs that share a transaction id
+    /// and differ in the index, with indices of different magnitudes
+    #[serde(default)]
+    pub sibling_inputs: Vec<(u16, u32)>,
     /// when the body has no collateral: collateral := copy of the inputs
     pub collateral_from_inputs: bool,
     pub collret: CollRet,
@@ -51,6 +55,32 @@ fn dup_in(set: &mut Node, dups: &[(u16, u16)]) {
             let e = v[pvkit::pick_idx(*from, v.len())].clone();
             let pos = pvkit::pick_idx(*at, v.len() + 1);
             v.insert(pos, e);
+        }
+        if let cborx::Len::Def(w) = len {
+            if !w.fits(v.len() as u64) {
+                *w = cborx::W::min_for(v.len() as u64);
+            }
+        }
+    }
+}
+
+fn sibling_in(set: &mut Node, sibs: &[(u16, u32)]) {
+    let inner = match &mut set.k {
+        Kind::Tag(_, _, i) => i.as_mut(),
+        _ => set,
+    };
+    if let Kind::Array(v, len) = &mut inner.k {
+        for (from, idx) in sibs {
+            if v.is_empty() {
+                break;
+            }
+            let mut e = v[pvkit::pick_idx(*from, v.len())].clone();
+            if let Some(pair) = e.as_array_mut() {
+                if pair.len() == 2 {
+                    pair[1] = cborx::uint(*idx as u64);
+                    v.push(e);
+                }
+            }
         }
         if let cborx::Len::Def(w) = len {
             if !w.fits(v.len() as u64) {
@@ -104,6 +134,7 @@ pub fn build(c: &Case) -> Option<(u64, Vec<u8>)> {
         return None;
     }
     if let Some(ins) = body.map_get_mut(0) {
+        sibling_in(ins, &c.sibling_inputs);
         dup_in(ins, &c.dup_inputs);
     }
     if c.collateral_from_inputs && body.map_get(13).is_none() {
@@ -282,7 +313,7 @@ fn check(c: &Case, obs: &mut Obs) -> Result<(), Fail> {
     let tx = match MultiEraTx::decode_for_era(era_of(tag), &bytes) {
         Ok(t) => t,
         Err(e) => {
-            let plain = c.flag.is_none() && c.dup_inputs.is_empty() && c.dup_collateral.is_empty() && !c.collateral_from_inputs && c.collret == CollRet::Keep;
+            let plain = c.flag.is_none() && c.dup_inputs.is_empty() && c.sibling_inputs.is_empty() && c.dup_collateral.is_empty() && !c.collateral_from_inputs && c.collret == CollRet::Keep;
             obs.class(if plain { "rejected:plain" } else { "rejected:variant" });
             let _ = e;
             return Ok(());
@@ -347,8 +378,18 @@ fn variant_strategy(full: bool) -> impl Strategy<Value = Case> {
         prop_oneof![2 => Just(vec![]), 1 => proptest::collection::vec((any::<u16>(), any::<u16>()), 1..=3)],
         any::<bool>(),
         prop_oneof![2 => Just(CollRet::Keep), 1 => Just(CollRet::Remove), 2 => any::<u16>().prop_map(CollRet::Add)],
+        prop_oneof![
+            2 => Just(vec![]),
+            2 => proptest::collection::vec(
+                (any::<u16>(), prop_oneof![
+                    3 => proptest::sample::select(vec![0u32, 1, 2, 9, 10, 11, 19, 20, 99, 100, 101, 255, 256, 999, 1000, 65535, 65536, u32::MAX]),
+                    1 => 0u32..300,
+                ]),
+                1..=5
+            ),
+        ],
     )
-        .prop_map(move |(sel, flag, dup_inputs, dup_collateral, cfi, collret)| {
+        .prop_map(move |(sel, flag, dup_inputs, dup_collateral, cfi, collret, sibling_inputs)| {
             let (name, idx, tag) = &src[pvkit::pick_idx(sel, src.len())];
             // keep the variant inside the era's domain so that few cases are discarded
             let tag = *tag;
@@ -357,6 +398,7 @@ fn variant_strategy(full: bool) -> impl Strategy<Value = Case> {
                 idx: *idx,
                 flag: if tag >= 5 { flag } else { flag.filter(|f| *f) },
                 dup_inputs,
+                sibling_inputs: if tag >= 2 { sibling_inputs } else { vec![] },
                 dup_collateral: if tag >= 5 { dup_collateral } else { vec![] },
                 collateral_from_inputs: tag >= 5 && cfi,
                 collret: if tag >= 6 { collret } else { CollRet::Keep },
@@ -379,7 +421,7 @@ pub fn run(s: &Session) {
     // every corpus transaction: as found, flag true, flag false
     let mut plain = vec![];
     for (name, idx, tag) in src.iter() {
-        let base = Case { src: name.clone(), idx: *idx, flag: None, dup_inputs: vec![], dup_collateral: vec![], collateral_from_inputs: false, collret: CollRet::Keep };
+        let base = Case { src: name.clone(), idx: *idx, flag: None, dup_inputs: vec![], sibling_inputs: vec![], dup_collateral: vec![], collateral_from_inputs: false, collret: CollRet::Keep };
         plain.push(base.clone());
         if *tag >= 5 {
             plain.push(Case { flag: Some(true), ..base.clone() });
